@@ -86,6 +86,38 @@ fn write_cases(ctx: &mut Ctx) {
         if subset & 4 != 0 { simple_sds::ops::SelectZero::enable_select_zero(&mut bv); }
         emit(ctx, &mut k, &bv, format!("type bitvector\nn {}\nsupports {} {} {}\nones {}\n", n, subset & 1, (subset >> 1) & 1, (subset >> 2) & 1, list(&m.ones)));
         emit(ctx, &mut k, &mk::raw_push(&bits, &mut rng), format!("type raw\nn {}\nones {}\n", n, list(&m.ones)));
+        // The same kinds of vector after a history of operations (resizes inside a word, pops, pushes): the document's
+        // "unused bits must be 0" must hold for whatever the API left behind, not only for freshly built vectors.
+        {
+            let mut hb: Vec<bool> = bits.iter().copied().take(3000).collect();
+            let mut raw = mk::raw_set_bit(&hb);
+            for _ in 0..(1 + rng.below(6)) {
+                match rng.below(5) {
+                    0 => { let k = rng.below(std::cmp::min(hb.len(), 70) + 1); let nl = hb.len() - k; raw.resize(nl, false); hb.truncate(nl); },
+                    1 => { let k = 1 + rng.below(70); let nl = hb.len() + k; raw.resize(nl, true); hb.resize(nl, true); },
+                    2 => { let k = 1 + rng.below(70); let nl = hb.len() + k; raw.resize(nl, false); hb.resize(nl, false); },
+                    3 => { if simple_sds::raw_vector::PopRaw::pop_bit(&mut raw).is_some() { hb.pop(); } },
+                    _ => { simple_sds::raw_vector::PushRaw::push_bit(&mut raw, true); hb.push(true); },
+                }
+            }
+            let hm = SetModel::from_bits(&hb);
+            emit(ctx, &mut k, &raw, format!("type raw\nn {}\nones {}\n", hb.len(), list(&hm.ones)));
+            emit(ctx, &mut k, &BitVector::from(raw), format!("type bitvector\nn {}\nsupports 0 0 0\nones {}\n", hb.len(), list(&hm.ones)));
+            let hw = 1 + rng.below(64);
+            let mut hv = IntVector::new(hw).unwrap();
+            let mut hvals: Vec<u64> = Vec::new();
+            let trunc = |v: u64| if hw == 64 { v } else { v & ((1u64 << hw) - 1) };
+            for _ in 0..rng.below(40) { let v = rng.next_u64() | 1; hv.push(v); hvals.push(trunc(v)); }
+            for _ in 0..(1 + rng.below(5)) {
+                match rng.below(4) {
+                    0 => { let nl = hvals.len().saturating_sub(rng.below(4)); simple_sds::ops::Resize::resize(&mut hv, nl, 0); hvals.truncate(nl); },
+                    1 => { let nl = hvals.len() + rng.below(4); simple_sds::ops::Resize::resize(&mut hv, nl, !0u64); hvals.resize(nl, trunc(!0u64)); },
+                    2 => { if simple_sds::ops::Pop::pop(&mut hv).is_some() { hvals.pop(); } },
+                    _ => { let v = !0u64; hv.push(v); hvals.push(trunc(v)); },
+                }
+            }
+            emit(ctx, &mut k, &hv, format!("type int\nwidth {}\nvalues {}\n", hw, list64(&hvals)));
+        }
         // Integer vector of some width (content from the generator, truncated as the format demands).
         let width = 1 + (i + ctx.shard * 7) % 64;
         let len = match i % 4 { 0 => 0, 1 => 1, 2 => 64 / width + 1, _ => rng.below(500) };
